@@ -281,6 +281,59 @@ func (c *Ctx) chunkSources(fn *ssa.Function, idParam *ssa.Parameter, depth int) 
 }
 
 func c03Backends(c *Ctx) {
+	c03BackendsRules(c)
+	c03SkipVerifyPlumbing(c)
+}
+
+// c03SkipVerifyPlumbing: in the commands, verification of chunks read from a store is switched
+// off only where the --skip-verify flag says so (the config file's per-store entry arrives in
+// the options the flag is merged into).  Any other assignment of true to StoreOptions.SkipVerify -
+// under another flag, unconditionally - makes every store built from those options hand out
+// unverified chunks, and extract writes whatever a damaged store or cache returns.
+func c03SkipVerifyPlumbing(c *Ctx) {
+	acc := func(iff *ssa.If) (bool, bool) {
+		cond := stripNot(iff.Cond)
+		neg := cond != iff.Cond
+		if !hasOrigin(cond, func(o string) bool { return o == "field:cmdStoreOptions.skipVerify" }) {
+			return false, false
+		}
+		if _, isCmp := cond.(*ssa.BinOp); isCmp {
+			return false, false
+		}
+		return !neg, neg
+	}
+	n := 0
+	for _, fn := range c.subjects() {
+		if fn.Pkg != c.CmdSSA || fn.Blocks == nil {
+			continue
+		}
+		instrs(fn, func(_ *ssa.BasicBlock, _ int, ins ssa.Instruction) {
+			st, ok := ins.(*ssa.Store)
+			if !ok {
+				return
+			}
+			fa, ok := st.Addr.(*ssa.FieldAddr)
+			if !ok || fieldOf(fa) != "StoreOptions.SkipVerify" {
+				return
+			}
+			if k, isK := st.Val.(*ssa.Const); isK && !isTrueConst(k) {
+				return // switching verification on
+			}
+			n++
+			if fnKey(fn) == "cmd.runPull" {
+				c.info(fnKey(fn)+":skip-verify-by-flag", ins.Pos(), "exception: server side of the casync protocol - chunks are sent in storage form and the pulling client verifies them (stated in the source)")
+				return
+			}
+			okG, _ := guarded(fn, ins, acc)
+			c.verdict(okG, fnKey(fn)+":skip-verify-by-flag", ins.Pos(), "StoreOptions.SkipVerify is set only where --skip-verify is set", "StoreOptions.SkipVerify is switched on by something other than the --skip-verify flag: every store built from these options hands out chunks without hashing them, and a damaged store or cache ends up in the output")
+		})
+	}
+	if n == 0 {
+		c.info("skip-verify-by-flag", token.NoPos, "no assignment of true to StoreOptions.SkipVerify in the commands")
+	}
+}
+
+func c03BackendsRules(c *Ctx) {
 	impls := c.implementers("Store")
 	sort.Slice(impls, func(i, j int) bool { return impls[i].Obj().Name() < impls[j].Obj().Name() })
 	seen := map[*ssa.Function]bool{}
